@@ -12,7 +12,8 @@ The contracts quantify over tables and callbacks; what is decided are the clause
          the value, and the wrappers forward (input, row_to_value) to the parameters of the _by_key functions.
   C09.A  to_array: the key of every inserted row is its position - enumerate()'s index, or a counter that starts at 0 and is
          stepped by 1 once per row after the insert - and the value is the row's value; the fresh table is returned.
-  C09.U  non-table inputs are returned unchanged by every native.
+  C09.U  non-table inputs are returned unchanged by every native (match arms Ok(input), or
+         `let Some(..) = <table probe of the input> else { return Ok(input) }`, the probe decided by none_unless_table).
   C09.T  wiring table: every "__name" used by a Card::call_native in stdlib.rs is registered by register_native_stdlib with
          a wrapper of the same arity as the number of argument cards; __min / __max are native_minmax::<_, true/false>
          and inside it LESS selects `<` on the true edge and `>` on the false edge; every library function is part of
@@ -26,6 +27,7 @@ The contracts quantify over tables and callbacks; what is decided are the clause
 """
 from cao.facts import (AnchorMissing, callee_names, short, op_local, op_place, DefUse, hir_walk, hir_callee, hir_strip, hir_local_id, pat_variants)
 from cao.rules import Rule, ok, bad, undecided, note, R
+import re
 from cao import mirutil as mu
 from cao import hirutil as hu
 
@@ -173,6 +175,91 @@ def exported_functions(F):
     return exported, unresolved
 
 
+def _resolve_local(f, e, depth=0):
+    """a single-assignment local stands for its initialiser"""
+    inits = hu.let_inits(f)
+    e = hu.strip_casts(e)
+    while e is not None and e.get("k") == "path" and e["path"]["res"].get("k") == "local" and depth < 4:
+        ins = inits.get(e["path"]["res"]["id"], [])
+        if len(ins) != 1:
+            break
+        e = hu.strip_casts(ins[0])
+        depth += 1
+    return e
+
+
+def _const_guard(e):
+    """name of the const generic parameter an `if` tests, else None"""
+    c = hu.strip_casts(e)
+    if c is not None and c.get("k") == "path" and c["path"]["res"].get("k") == "def" and "ConstParam" in str(c["path"]["res"].get("def_kind")):
+        return short(c["path"]["res"].get("path", ""))
+    return None
+
+
+def _orderings(f, e, guards=()):
+    """the Ordering constant(s) an expression evaluates to: [(name, guards)] with guards = ((const parameter, truth), ..) for
+    constants selected by `if CONST { .. } else { .. }`; None if it is anything else"""
+    e = _resolve_local(f, e)
+    if e is None:
+        return None
+    k = e.get("k")
+    if k == "block" and not e["block"]["stmts"] and e["block"].get("expr") is not None:
+        return _orderings(f, e["block"]["expr"], guards)
+    if k == "path" and e["path"]["res"].get("k") == "def":
+        p_ = short(e["path"]["res"].get("ctor_of") or e["path"]["res"].get("path", ""))
+        for nm in ("Less", "Greater", "Equal"):
+            if p_.endswith("cmp::Ordering::" + nm):
+                return [(nm, guards)]
+        return None
+    if k == "if" and e.get("else") is not None:
+        g = _const_guard(e["cond"])
+        a = _orderings(f, e["then"], guards + (((g, True),) if g else ()))
+        b = _orderings(f, e["else"], guards + (((g, False),) if g else ()))
+        return None if a is None or b is None else a + b
+    return None
+
+
+def value_comparisons(F, f, e, guards=()):
+    """If the boolean expression is nothing but an order comparison of two Values, the comparison(s) it stands for:
+    [dict(op='Lt'|'Le'|'Gt'|'Ge'|'Eq', l, r, guards)] - several when a const parameter selects between them.
+      a < b                                     the operator as written
+      if CONST { a < b } else { a > b }         both, guarded
+      a.partial_cmp(&b) == Some(Ordering::X)    Less -> Lt, Greater -> Gt (the default `<` / `>` of PartialOrd are exactly
+                                                this test; Value must not override lt/gt/le/ge), X may be a local holding
+                                                `if CONST { Less } else { Greater }`
+    None for anything else (a condition that is more than the comparison)."""
+    e = _resolve_local(f, e)
+    if e is None:
+        return None
+    k = e.get("k")
+    if k == "block" and not e["block"]["stmts"] and e["block"].get("expr") is not None:
+        return value_comparisons(F, f, e["block"]["expr"], guards)
+    if k == "bin" and e["op"] in ("Lt", "Le", "Gt", "Ge"):
+        return [dict(op=e["op"], l=e["l"], r=e["r"], guards=guards, ln=e.get("ln"))]
+    if k == "if" and e.get("else") is not None:
+        g = _const_guard(e["cond"])
+        a = value_comparisons(F, f, e["then"], guards + (((g, True),) if g else ()))
+        b = value_comparisons(F, f, e["else"], guards + (((g, False),) if g else ()))
+        return None if a is None or b is None else a + b
+    if k == "bin" and e["op"] == "Eq":
+        for pc, so in ((e["l"], e["r"]), (e["r"], e["l"])):
+            pc = hu.strip_all(_resolve_local(f, pc))
+            so = hu.strip_all(_resolve_local(f, so))
+            if pc is None or so is None or pc.get("k") not in ("mcall", "call") or \
+                    not any(n == "<value::Value as std::cmp::PartialOrd>::partial_cmp" for n in hir_callee(pc)):
+                continue
+            if not (so.get("k") == "call" and so["args"] and any(n.endswith("::Some") for n in hir_callee(so))):
+                continue
+            if any(F.fn("<value::Value as std::cmp::PartialOrd>::%s" % m, required=False) is not None for m in ("lt", "le", "gt", "ge")):
+                return None         # Value has operators of its own: `<` is not this test
+            ords = _orderings(f, so["args"][0], guards)
+            if ords is None:
+                return None
+            a, b = (pc["recv"], pc["args"][0]) if pc.get("k") == "mcall" else (pc["args"][0], pc["args"][1])
+            return [dict(op={"Less": "Lt", "Greater": "Gt", "Equal": "Eq"}[nm], l=a, r=b, guards=g_, ln=e.get("ln")) for nm, g_ in ords]
+    return None
+
+
 def rule_t(F):
     res = []
     # 1. names used by the card programs: the string that reaches Card::call_native's first parameter - written in place,
@@ -254,16 +341,25 @@ def rule_t(F):
     mm = F.fn("stdlib::native_minmax")
     sel = None
     for x in hir_walk(mm.hir["body"]):
-        if x.get("k") == "if":
-            c = hu.strip_casts(x["cond"])
-            if c.get("k") == "path" and c["path"]["res"].get("k") == "def" and short(c["path"]["res"].get("path", "")).endswith("LESS"):
-                t = [y for y in hir_walk(x["then"]) if y.get("k") == "bin"]
-                e = [y for y in hir_walk(x["else"]) if y.get("k") == "bin"] if x.get("else") else []
-                if t and e:
-                    sel = (t[0]["op"], e[0]["op"], x["ln"],
-                           hu.local_name(t[0]["l"]), hu.local_name(t[0]["r"]), hu.local_name(e[0]["l"]), hu.local_name(e[0]["r"]))
+        if x.get("k") not in ("if", "bin") or sel is not None:
+            continue
+        cs = value_comparisons(F, mm, x) or []
+        t = [c for c in cs if any(tr for _g, tr in c["guards"])]
+        e = [c for c in cs if c["guards"] and not any(tr for _g, tr in c["guards"])]
+        if len(cs) == 2 and len(t) == 1 and len(e) == 1:
+            nm = lambda z: hu.local_name(hu.strip_all(z))
+            sel = (t[0]["op"], e[0]["op"], t[0]["ln"] or x["ln"], nm(t[0]["l"]), nm(t[0]["r"]), nm(e[0]["l"]), nm(e[0]["r"]))
+    # the operands: the new key on the left, the best key so far on the right (the one that is replaced by the new key)
+    if sel is not None and sel[3] and sel[4] and sel[3] == sel[5] and sel[4] == sel[6]:
+        assigns = [(hu.local_name(hu.strip_all(y["l"])), hu.local_name(hu.strip_all(y["r"]))) for y in hir_walk(mm.hir["body"]) if y.get("k") == "assign"]
+        if (sel[3], sel[4]) in assigns and (sel[4], sel[3]) not in assigns:
+            sel = sel[:3] + (sel[4], sel[3], sel[6], sel[5]) + ("swapped",)
     if sel is None:
         res.append(undecided("C09.T", "C09/T/native_minmax/less-selects-lt", mm.loc(), "selection on LESS not recognised"))
+    elif len(sel) > 7:
+        res.append(bad("C09.T", "C09/T/native_minmax/less-selects-lt", mm.loc(sel[2]), "native_minmax compares the best key so far with the new key "
+                       "(`%s %s %s` when LESS) and replaces `%s` when that holds: std.min returns the largest and std.max the smallest row"
+                       % (sel[4], "<" if sel[0] == "Lt" else sel[0], sel[3], sel[3])))
     elif sel[0] == "Lt" and sel[1] == "Gt" and sel[3] == sel[5] and sel[4] == sel[6]:
         res.append(ok("C09.T", "C09/T/native_minmax/less-selects-lt", mm.loc(sel[2]), "LESS => candidate < best, otherwise candidate > best (strict: the first extreme entry wins)"))
     else:
@@ -286,52 +382,86 @@ def rule_t(F):
 
 
 def rule_n(F):
+    """C09.N: no native derives mutable access to the table behind its input. Taint from the input parameter through copies,
+    references and the accessor calls listed below; a private library helper that is handed a tainted value is analysed the
+    same way from that parameter (and what it returns is tainted when it can carry a reference)."""
+    from cao.facts import rvalue_places
     res = []
     MUTATORS = ("as_table_mut", "get_table_mut", "keys_mut", "insert", "append", "pop", "remove")
-    for f in F.fns:
-        if not f.mir or f.is_closure or not f.short.startswith("stdlib::native_"):
-            continue
-        du = DefUse(f)
-        # taint from parameter `iterable` (local 2)
-        names = [f.local_name(l) for l in range(len(f.mir["locals"]))]
-        if "iterable" not in names:
-            res.append(undecided("C09.N", "C09/N/%s/input-not-mutated" % f.name, f.loc(), "no `iterable` parameter"))
-            continue
-        src = names.index("iterable")
-        tainted = {src}
+    PASS = ("as_ref", "as_mut", "as_ptr", "as_table", "iter", "next", "enumerate", "skip", "branch", "into_iter", "unwrap", "nth_key", "get",
+            "deref", "deref_mut", "map", "copied", "len")
+    memo = {}
+
+    def analyse(f, srcs, depth=0):
+        """-> (mutating calls [(what, fn, line)], number of tainted locals, is the result tainted)"""
+        key = (f.short, tuple(sorted(srcs)))
+        if key in memo:
+            return memo[key]
+        memo[key] = ([], 0, False)
+        tainted = set(srcs)
+        bad_calls = []
+        helper_calls = {}
         changed = True
         while changed:
             changed = False
-            for b in f.blocks:
+            for bi, b in enumerate(f.blocks):
                 for st in b["stmts"]:
                     if st["k"] == "assign" and not st["place"]["p"]:
-                        from cao.facts import rvalue_places
                         if any(p["l"] in tainted for p in rvalue_places(st["rv"])) and st["place"]["l"] not in tainted:
                             tainted.add(st["place"]["l"])
                             changed = True
                 t = b["term"]
                 if t["k"] == "call" and not t["dest"]["p"]:
                     nm = callee_names(t["func"])
-                    if any((op_place(a) or {}).get("l") in tainted for a in t["args"]) and t["dest"]["l"] not in tainted:
-                        if any(n.rsplit("::", 1)[-1] in ("as_ref", "as_table", "iter", "next", "enumerate", "skip", "branch", "into_iter", "unwrap", "nth_key", "get",
-                                                          "deref", "map", "copied", "len") for n in nm):
+                    targs = [j for j, a in enumerate(t["args"]) if (op_place(a) or {}).get("l") in tainted]
+                    if not targs:
+                        continue
+                    g = next((g_ for g_ in (F.fn(n, required=False) for n in nm) if g_ is not None and g_.mir and not g_.is_closure
+                              and g_.short.startswith("stdlib::") and g_ is not f), None)
+                    if g is not None and depth < 3:
+                        sub = analyse(g, set(j + 1 for j in targs), depth + 1)
+                        helper_calls[bi] = sub[0]
+                        out_ty = str((g.raw.get("sig") or {}).get("output") or "")
+                        if (sub[2] or "&" in out_ty or "*mut" in out_ty or "*const" in out_ty) and t["dest"]["l"] not in tainted:
                             tainted.add(t["dest"]["l"])
                             changed = True
-        bad_calls = []
+                    elif t["dest"]["l"] not in tainted and any(n.rsplit("::", 1)[-1] in PASS for n in nm):
+                        tainted.add(t["dest"]["l"])
+                        changed = True
         for bi, t in mu.calls(f):
             nm = callee_names(t["func"])
             last = nm[0].rsplit("::", 1)[-1]
             if last in MUTATORS and t["args"] and (op_place(t["args"][0]) or {}).get("l") in tainted:
                 recv_ty = t.get("arg_tys", [""])[0]
                 if "CaoLangTable" in recv_ty or "CaoLangObject" in recv_ty or "value::Value" in recv_ty:
-                    bad_calls.append((last, t.get("ln")))
+                    bad_calls.append((last, f, t.get("ln")))
             if any("TryFrom<value::Value>" in n and "&mut" in n for n in nm) and any((op_place(a) or {}).get("l") in tainted for a in t["args"]):
-                bad_calls.append(("try_from(&mut CaoLangTable)", t.get("ln")))
+                bad_calls.append(("try_from(&mut CaoLangTable)", f, t.get("ln")))
+        for bi in sorted(helper_calls):
+            bad_calls += helper_calls[bi]
+        memo[key] = (bad_calls, len(tainted), 0 in tainted)
+        return memo[key]
+
+    for f in F.fns:
+        if not f.mir or f.is_closure or not f.short.startswith("stdlib::native_"):
+            continue
+        # taint from the input parameter: `iterable`, the Value that follows the vm
+        names = [f.local_name(l) for l in range(len(f.mir["locals"]))]
+        if "iterable" in names:
+            src = names.index("iterable")
+        elif f.mir["arg_count"] >= 2 and f.local_ty(2) == "value::Value":
+            src = 2
+        else:
+            res.append(undecided("C09.N", "C09/N/%s/input-not-mutated" % f.name, f.loc(), "no `iterable` parameter"))
+            continue
+        bad_calls, ntaint, _r = analyse(f, {src})
         key = "C09/N/%s/input-not-mutated" % f.name
         if bad_calls:
-            res.append(bad("C09.N", key, f.loc(bad_calls[0][1]), "%s obtains mutable access to its input table (%s): library functions must not modify their input" % (f.name, bad_calls[0][0])))
+            what, g, ln = bad_calls[0]
+            res.append(bad("C09.N", key, g.loc(ln), "%s obtains mutable access to its input table (%s%s): library functions must not modify their input"
+                           % (f.name, what, "" if g is f else " in its helper %s" % g.name)))
         else:
-            res.append(ok("C09.N", key, f.loc(), "no mutable table access is derived from `iterable` (%d locals derived from it)" % len(tainted)))
+            res.append(ok("C09.N", key, f.loc(), "no mutable table access is derived from `iterable` (%d locals derived from it)" % ntaint))
     if len(res) < 3:
         raise AnchorMissing("stdlib natives (found %d)" % len(res))
     return res
@@ -611,35 +741,30 @@ def rule_f(F):
     impure = []
     inits = hu.let_inits(f)
 
-    def resolve(e, depth=0):
-        e = hu.strip_casts(e)
-        while e is not None and e.get("k") == "path" and e["path"]["res"].get("k") == "local" and depth < 4:
-            ins = inits.get(e["path"]["res"]["id"], [])
-            if len(ins) != 1:
-                break
-            e = hu.strip_casts(ins[0])
-            depth += 1
-        return e
+    def resolve(e):
+        return _resolve_local(f, e)
 
     def pure_cmp(e):
         """-> list of comparison ops if the condition is nothing but a comparison of two Values (possibly selected by a
-        const `if`), else None"""
-        e = resolve(e)
-        if e is None:
-            return None
-        if e.get("k") == "bin" and e["op"] in ("Lt", "Le", "Gt", "Ge"):
-            return [e["op"]]
-        if e.get("k") == "if" and e.get("else") is not None:
-            a, b = pure_cmp(e["then"]), pure_cmp(e["else"])
-            return None if a is None or b is None else a + b
-        if e.get("k") == "block" and not e["block"]["stmts"] and e["block"].get("expr") is not None:
-            return pure_cmp(e["block"]["expr"])
-        return None
+        const `if`, possibly spelled partial_cmp(..) == Some(Less / Greater)), else None"""
+        cs = value_comparisons(F, f, e)
+        return None if cs is None else [c["op"] for c in cs]
+
+    def compares_values(c):
+        for y in hir_walk(c):
+            if y.get("k") == "bin" and y["op"] in ("Lt", "Le", "Gt", "Ge") and "Value" in str(y.get("l", {}).get("ty")):
+                return True
+            if y.get("k") in ("mcall", "call") and any(n == "<value::Value as std::cmp::PartialOrd>::partial_cmp" for n in hir_callee(y)):
+                return True
+            if y.get("k") == "path" and y["path"]["res"].get("k") == "local" and y is not c:
+                r_ = resolve(y)
+                if r_ is not y and r_ is not None and r_.get("k") != "path" and "bool" in str(y.get("ty")) and compares_values(r_):
+                    return True
+        return False
     for x in hir_walk(f.hir["body"]):
         if x.get("k") == "if" and any(y.get("k") == "assign" for y in hir_walk(x["then"])) and x.get("else") is None:
             c = resolve(x["cond"])
-            has_cmp = any(y.get("k") == "bin" and y["op"] in ("Lt", "Le", "Gt", "Ge") and "Value" in str(y.get("l", {}).get("ty")) for y in hir_walk(c))
-            if not has_cmp:
+            if not compares_values(c):
                 continue
             ops = pure_cmp(x["cond"])
             if ops is None:
@@ -657,7 +782,7 @@ def rule_f(F):
         if not first:
             probs.append("%s (line %s) returns the LAST of several equal extremes" % (what, x.get("ln")))
     for x, ops in updates:
-        if any(o in ("Le", "Ge") for o in ops):
+        if any(o in ("Le", "Ge", "Eq") for o in ops):
             probs.append("the running best is replaced under a non-strict comparison %s (line %s): a later row with an equal key "
                          "replaces an earlier one" % (ops, x.get("ln")))
     unclear = []
@@ -829,6 +954,71 @@ def rule_p(F):
     return res
 
 
+def param_declaration_order(F, pf):
+    """In which order does the compiler declare a function's parameters as locals (`add_local` once per parameter)?
+    -> set of 'forward' / 'reverse' over the declaration loops found: a loop in process_function itself, or in a function
+    it hands (part of) one of its own parameters to, that calls add_local per element. Recognised loops:
+    `for p in xs.iter()[.rev()]` and `while let Some((p, rest)) = xs.split_last() / split_first()`."""
+    from cao import scoping as sc
+    out = set()
+
+    def declares(node):
+        return any(y.get("k") == "mcall" and y["name"] == "add_local" for y in hir_walk(node))
+
+    def loops_of(g, only_ids=None):
+        """only_ids: the iterated collection must be (derived from) one of these locals of g"""
+        def base_ok(e):
+            if only_ids is None:
+                return True
+            e = sc._resolve_base(g, e)
+            fc = hu.field_chain(e) if e is not None else None
+            return fc is not None and fc[0] in only_ids
+        for_loops = set()
+        for s_ in sc.searches(g):
+            if s_["kind"] != "for":
+                continue
+            for y in hir_walk(s_["node"]):
+                if y.get("k") == "loop":
+                    for_loops.add(id(y))
+                    break
+            if declares(s_["node"]) and s_["base"] is not None and base_ok(s_["base"]) and \
+                    all(a in sc.ITER_SOURCES + ("rev", "copied", "cloned", "by_ref") for a in s_["adapters"]):
+                out.add(sc.direction(s_)[0])
+        for x in hir_walk(g.hir["body"]):
+            if x.get("k") == "loop" and id(x) not in for_loops and x.get("source") != "ForLoop" and declares(x):
+                # while let Some((p, rest)) = remaining.split_last() { ..; remaining = rest }
+                for y in hir_walk(x):
+                    if y.get("k") == "let" and y.get("init") is not None:
+                        i_ = hu.strip_all(y["init"])
+                        if i_ is not None and i_.get("k") == "mcall" and i_["name"] in ("split_last", "split_first", "split_last_mut", "split_first_mut"):
+                            recv = hu.strip_all(i_["recv"])
+                            lid = hir_local_id(recv) if recv is not None else None
+                            # the peeled slice: a local that starts as the collection and is re-assigned inside the loop
+                            ins = hu.let_inits(g).get(lid, []) if lid is not None else []
+                            outside = [e for e in ins if not any(w is e for w in hir_walk(x))]
+                            if lid is not None and len(outside) == 1 and base_ok(outside[0]):
+                                out.add("reverse" if i_["name"].startswith("split_last") else "forward")
+    loops_of(pf)
+    pf_params = set(i for p_ in pf.hir.get("params", []) for i, _n in pat_bindings_(p_))
+    for x in hir_walk(pf.hir["body"]):
+        if x.get("k") not in ("call", "mcall"):
+            continue
+        for n in hir_callee(x):
+            g = F.fn(n, required=False)
+            if g is None or not g.hir or g.is_closure or g is pf or not n.startswith("compiler::"):
+                continue
+            args = ([x["recv"]] if x.get("k") == "mcall" else []) + list(x["args"])
+            ids = set()
+            for a, p_ in zip(args, g.hir.get("params", [])):
+                fc = hu.field_chain(hu.strip_all(a)) if a is not None else None
+                if fc is not None and fc[0] in pf_params and fc[2] != "self" and p_.get("k") == "bind":
+                    ids.add(p_["id"])
+            if ids:
+                loops_of(g, ids)
+            break
+    return out
+
+
 def rule_k(F):
     """C09.K: min / max / sorted compare the rows *by value*. Three sites have to agree for that: the natives push the two
     fields of a row in one fixed order before every callback (sibling agreement over all run_function sites), the compiler
@@ -841,11 +1031,30 @@ def rule_k(F):
         """(tuple field the pushed operand was read from | None, local the field was read from | None)"""
         p = op_place(op)
         seen = set()
+        ROW = "(value::Value,value::Value)"
         while p is not None and depth < 12:
             depth += 1
-            flds = [e["name"] for e in p["p"] if e["k"] == "field"]
-            if flds and flds[-1] in ("0", "1", "2"):
-                return flds[-1], p["l"]
+            # a field of a row: a Value read out of a (Value, Value) tuple. The type of the place is followed along the
+            # projection (`.0` of the Option<(&row, &[row])> that split_first returns is not a field of a row)
+            cur = (f.local_ty(p["l"]) or "").replace(" ", "")
+            hit = None
+            for e in p["p"]:
+                if e["k"] == "field":
+                    fty = str(e.get("ty") or "").replace(" ", "")
+                    if fty == "value::Value" and e["name"] in ("0", "1") and (cur is None or cur == ROW):
+                        hit = e["name"]
+                    elif fty == "value::Value" and e["name"] in ("0", "1", "2") and cur is not None and cur.count("value::Value") == 3 \
+                            and cur.startswith("(value::Value,"):
+                        hit = e["name"]          # (key, k, v): rows with the computed key in front
+                    cur = fty or None
+                elif e["k"] == "deref":
+                    cur = re.sub(r"^(&('[A-Za-z_0-9]+)?(mut)?|\*const|\*mut)", "", cur) if cur else None
+                elif e["k"] == "downcast":
+                    pass
+                else:
+                    cur = None
+            if hit is not None:
+                return hit, p["l"]
             if p["l"] in seen:
                 return None, None
             seen.add(p["l"])
@@ -929,15 +1138,10 @@ def rule_k(F):
     pushed = next(iter(orders))          # e.g. ('1', '0'): value first, then key
     pv = pushed.index("1")               # position of the value among the pushes (rows are (key, value) tuples)
     pf = F.fn("compiler::Compiler::process_function")
-    reversed_binding = None
-    for x in hir_walk(pf.hir["body"]):
-        if x.get("k") == "loop":
-            for y in hir_walk(x):
-                if y.get("k") == "mcall" and y["name"] == "add_local":
-                    hdr = [z for z in hir_walk(pf.hir["body"]) if z.get("k") == "match" and any(w is x for w in hir_walk(z))]
-                    reversed_binding = any(z.get("k") == "mcall" and z["name"] == "rev" for h in hdr[-1:] for z in hir_walk(h.get("e") or h.get("scrut") or h))
-    if reversed_binding is None:
-        raise AnchorMissing("parameter declaration loop in process_function")
+    dirs = param_declaration_order(F, pf)
+    if len(dirs) != 1:
+        raise AnchorMissing("parameter declaration loop in process_function%s" % (" (conflicting directions %s)" % sorted(dirs) if dirs else ""))
+    reversed_binding = next(iter(dirs)) == "reverse"
     vk = F.fn("stdlib::value_key_fn")
     t = ct.tree(F, vk.hir["body"])
     key = "C09/K/row_to_value/returns-the-rows-value"
@@ -1041,6 +1245,119 @@ def rule_q(F):
     return res
 
 
+# ---- "is it a table?" probes --------------------------------------------------------------------------------------
+
+def _recv_root(e):
+    """local at the root of `x`, `&x`, `*x`, `x.field`, `x.as_ref()`, `unsafe { x }` (argument-less adapter calls are looked through)"""
+    for _ in range(8):
+        e = hu.strip_all(e)
+        if e is None:
+            return None
+        if e.get("k") == "field":
+            e = e["e"]
+        elif e.get("k") == "mcall" and not e["args"]:
+            e = e["recv"]
+        else:
+            break
+    return hir_local_id(e) if e is not None else None
+
+
+def _is_none(e):
+    e = hu.strip_all(e)
+    return e is not None and e.get("k") == "path" and e["path"]["res"].get("k") == "def" and \
+        short(e["path"]["res"].get("ctor_of") or e["path"]["res"].get("path", "")).endswith("::None")
+
+
+def none_unless_table(F, g, pidx, depth=0):
+    """does the crate function g (returning an Option) return None whenever its parameter number pidx (receiver = 0) is not
+    a table object? Decided from its body:
+      match <param> { ..Table.. => _, Object(o) => <probe of o>, <every other arm> => None }       (Value::as_table, CaoLangObject::as_table)
+      let x = <probe of param>?; ...                                                               (None is passed on by `?`)"""
+    if g is None or not g.hir or g.is_closure or depth > 4 or "Option<" not in str((g.raw.get("sig") or {}).get("output")):
+        return False
+    params = g.hir.get("params", [])
+    if pidx >= len(params) or params[pidx].get("k") != "bind":
+        return False
+    pid = params[pidx]["id"]
+    body = hir_strip(g.hir["body"])
+    tail = hu.strip_all(body["block"]["expr"]) if body.get("k") == "block" and body["block"].get("expr") is not None else (body if body.get("k") != "block" else None)
+    stmts = body["block"]["stmts"] if body.get("k") == "block" else []
+    # (i) `<probe of the parameter>?` as a statement of the body
+    for st in stmts:
+        e = st.get("init") if st["k"] == "let" else st.get("e")
+        e = hir_strip(e) if e is not None else None
+        if e is not None and e.get("k") == "match" and str(e.get("source", "")).startswith("TryDesugar"):
+            sc_ = hir_strip(e["scrut"])
+            inner = hir_strip(sc_["args"][0]) if sc_.get("k") == "call" and sc_["args"] else None
+            if inner is not None and table_probe_of(F, inner, {pid}, depth + 1):
+                return True
+        if any(y.get("k") == "ret" for y in hir_walk(e)) if e is not None else False:
+            break           # an exit before the probe
+    # (ii) a match on the parameter
+    if tail is not None and tail.get("k") == "match" and not stmts:
+        fc = hu.field_chain(tail["scrut"])
+        if fc is None or fc[0] != pid:
+            return False
+        for a in tail["arms"]:
+            vs = [v[0].rsplit("::", 1)[-1] for v in pat_variants(a["pat"])]
+            if "Table" in vs:
+                continue
+            if vs and all(v == "Object" for v in vs):
+                binds = set(i for i, _n in pat_bindings_(a["pat"]))
+                if not table_probe_of(F, a["body"], binds, depth + 1):
+                    return False
+                continue
+            if not _is_none(a["body"]):
+                return False
+        return True
+    return False
+
+
+def table_probe_of(F, e, ids, depth=0):
+    """is the expression a call that yields None unless (one of) the locals `ids` holds a table: `x.as_table()`,
+    `copy_rows(x)` ..."""
+    e = hu.strip_all(e)
+    if e is None or e.get("k") not in ("call", "mcall"):
+        return False
+    args = ([e["recv"]] if e.get("k") == "mcall" else []) + list(e["args"])
+    for n in hir_callee(e):
+        g = F.fn(n, required=False)
+        if g is None:
+            continue
+        for j, a in enumerate(args):
+            if _recv_root(a) in ids and none_unless_table(F, g, j, depth):
+                return True
+    return False
+
+
+def nontable_exits(F, f, it_id):
+    """`let Some(..) = <probe of the input> else { <exit> }` statements of a native: [(let statement, block it is in,
+    is the exit `return Ok(<input>)`)]. The probe may be applied to the input or to the object bound by a match on it."""
+    ids = {it_id}
+    for m in hir_walk(f.hir["body"]):
+        if m.get("k") == "match" and (hu.field_chain(m["scrut"]) or (None,))[0] == it_id:
+            for a in m["arms"]:
+                ids |= set(i for i, _n in pat_bindings_(a["pat"]))
+    out = []
+    for x in hir_walk(f.hir["body"]):
+        bl = x.get("block") if x.get("k") == "block" else (x.get("body") if x.get("k") == "loop" else None)
+        for st in (bl or {}).get("stmts", []):
+            if st["k"] != "let" or not st.get("els") or st.get("init") is None:
+                continue
+            if not any(v[0].endswith("::Some") for v in pat_variants(st["pat"])) or not table_probe_of(F, st["init"], ids):
+                continue
+            els = st["els"]
+            body = [s_["e"] for s_ in els["stmts"] if s_["k"] in ("semi", "expr")] + ([els["expr"]] if els.get("expr") is not None else [])
+            good = False
+            if len(body) == 1 and len(els["stmts"]) + (1 if els.get("expr") is not None else 0) == 1:
+                r = hir_strip(body[0])
+                v = hu.strip_all(r.get("e")) if r.get("k") == "ret" and r.get("e") is not None else None
+                good = v is not None and v.get("k") == "call" and any(n_.endswith("::Ok") for n_ in hir_callee(v)) and \
+                    hir_local_id(hu.strip_all(v["args"][0])) == it_id
+            out.append((st, bl, good))
+    return out
+
+
 def rule_a(F):
     """C09.A: to_array returns the values re-keyed 0..n-1 in order: the native walks the input's own iterator with nothing
     but `enumerate` on it (no rev / skip / filter / step_by), and inserts enumerate's index (unchanged) as the key and the
@@ -1055,12 +1372,38 @@ def rule_a(F):
         raise AnchorMissing("the for loop of native_to_array (found %d)" % len(loops))
     head = loops[0].get("e") or loops[0].get("scrut")
     chain = []
+    maps = []
     e = hu.strip_all(head["args"][0])
-    while e is not None and e.get("k") == "mcall":
-        chain.append(e["name"])
-        e = hu.strip_all(e["recv"])
+    for _ in range(12):
+        if e is not None and e.get("k") == "mcall":
+            chain.append(e["name"])
+            if e["name"] == "map":
+                maps.append(hu.strip_casts(e["args"][0]) if e["args"] else None)
+            e = hu.strip_all(e["recv"])
+        elif e is not None and hir_local_id(e) is not None and len(hu.let_inits(f).get(hir_local_id(e), [])) == 1 and \
+                any(w in str(e.get("ty")) for w in ("Iterator", "iter::", "Iter<")):
+            e = hu.strip_all(hu.let_inits(f)[hir_local_id(e)][0])      # `let values = t.iter().map(..); for .. in values.enumerate()`
+        else:
+            break
     problems = []
     unclear = []
+    # `.map(|(_, v)| *v)` in front of enumerate(): the rows are narrowed to their values first
+    projected = None
+    if chain == ["enumerate", "map", "iter"] and len(maps) == 1:
+        clo = maps[0]
+        if clo is not None and clo.get("k") == "closure" and len(clo.get("params", [])) == 1 and clo["params"][0].get("k") == "tuple" \
+                and len(clo["params"][0]["pats"]) == 2:
+            b_ = hu.strip_all(clo["body"])
+            if b_ is not None and b_.get("k") == "un" and b_.get("op") == "Deref":
+                b_ = hu.strip_all(b_["e"])
+            got = hir_local_id(b_) if b_ is not None else None
+            pats = clo["params"][0]["pats"]
+            if got is not None and pats[1].get("k") == "bind" and got == pats[1]["id"]:
+                projected = "value"
+            elif got is not None and pats[0].get("k") == "bind" and got == pats[0]["id"]:
+                projected = "key"
+        if projected is None:
+            unclear.append("what the map() in front of enumerate() yields is not recognised")
     arm = None
     for y in hir_walk(loops[0]):
         if y.get("k") == "match" and y is not loops[0] and y.get("source") == "ForLoopDesugar":
@@ -1096,6 +1439,16 @@ def rule_a(F):
             val_id = vp["id"] if vp.get("k") == "bind" else None
         if idx_id is None or hir_local_id(a0) != idx_id:
             problems.append("the key of the inserted row is not enumerate's index as it is")
+    elif chain == ["enumerate", "map", "iter"] and len(maps) == 1:
+        # the pattern is Some((i, val)) over the projected values
+        how = "for (i, val) in t.iter().map(|(_, v)| *v).enumerate() { out.insert(i, val) }"
+        if outer and len(outer) == 2 and outer[0].get("k") == "bind":
+            idx_id = outer[0]["id"]
+            val_id = outer[1]["id"] if outer[1].get("k") == "bind" and projected == "value" else None
+        if idx_id is None or hir_local_id(a0) != idx_id:
+            problems.append("the key of the inserted row is not enumerate's index as it is")
+        if projected is None:
+            val_id = hir_local_id(a1) if outer and len(outer) == 2 and outer[1].get("k") == "bind" and hir_local_id(a1) == outer[1]["id"] else None
     elif chain == ["iter"]:
         # the pattern is Some((_, val)): the position is a counter the loop keeps itself. It has to start at 0, be the key
         # as it is, and be stepped by exactly 1 once per row, after the insert, on every path through the body
@@ -1161,9 +1514,21 @@ def rule_a(F):
             for a in m["arms"]:
                 if "Table" in [v[0].rsplit("::", 1)[-1] for v in pat_variants(a["pat"])]:
                     table_arm = a
-    if table_arm is None or it is None or not fresh:
+    table_case = [table_arm["body"]] if table_arm is not None else []
+    if table_arm is None and it is not None:
+        # `let Some(t) = <is the input a table?> else { return Ok(input) }; <table case>`: what follows the statement
+        for st, bl, _good in nontable_exits(F, f, it["id"]):
+            rest = bl["stmts"][[id(s_) for s_ in bl["stmts"]].index(id(st)) + 1:]
+            table_case += [s_.get("init") if s_["k"] == "let" else s_.get("e") for s_ in rest if s_["k"] in ("let", "semi", "expr")]
+            for s_ in rest:
+                if s_["k"] == "let" and s_.get("els"):
+                    table_case += [z["e"] for z in s_["els"]["stmts"] if z["k"] in ("semi", "expr")]
+            if bl.get("expr") is not None:
+                table_case.append(bl["expr"])
+        table_case = [x for x in table_case if x is not None]
+    if not table_case or it is None or not fresh:
         raise AnchorMissing("Table arm / input parameter / init_table in native_to_array")
-    for y in hir_walk(table_arm["body"]):
+    for y in (z for part in table_case for z in hir_walk(part)):
         if y.get("k") == "call" and any(n_.endswith("::Ok") for n_ in hir_callee(y)) and y.get("args"):
             locs = set(z["path"]["res"]["id"] for z in hir_walk(y["args"][0]) if z.get("k") == "path" and z["path"]["res"].get("k") == "local")
             if not locs:
@@ -1212,12 +1577,23 @@ def rule_u(F):
                     offenders.append((a, v))
         key = "C09/U/%s/other-kinds-returned-unchanged" % nat
         n += 1
-        if arms < 2:
+        # ... or one exit for everything that is not a table: `let Some(t) = <table probe of the input> else { return Ok(input) }`
+        exits = nontable_exits(F, f, it["id"])
+        covered = bool(exits) or arms >= 2
+        if not covered:
             raise AnchorMissing("non-table arms in %s (found %d)" % (nat, arms))
+        bad_exit = next((st for st, _bl, good in exits if not good), None)
         if offenders:
             a, v = offenders[0]
             res.append(bad("C09.U", key, f.loc(a.get("ln")), "%s does not return its input unchanged for %s: non-table inputs to the "
                            "native-backed library functions must come back as they are" % (nat, "/".join(v))))
+        elif bad_exit is not None:
+            res.append(bad("C09.U", key, f.loc(bad_exit.get("ln")), "%s does not return its input unchanged when it is not a table (the `else` of the "
+                           "table test is not `return Ok(<input>)`): non-table inputs to the native-backed library functions must come "
+                           "back as they are" % nat))
+        elif exits:
+            res.append(ok("C09.U", key, f.loc(exits[0][0].get("ln")), "%d non-table arm(s) and %d `let Some(..) = <table test> else { return Ok(iterable) }`"
+                          % (arms, len(exits))))
         else:
             res.append(ok("C09.U", key, f.loc(), "%d non-table arms, all Ok(iterable)" % arms))
     return res
